@@ -229,7 +229,13 @@ func runByz(e *Env) {
 					k.Fault("byz.garbage-field-length")
 				} else if garbageCells && tp.Chance(1, 3) {
 					// a well-framed cell whose bytes are not a value of its type
-					switch tp.Next(4) {
+					switch tp.Next(6) {
+					case 4: // one byte short
+						if len(b) > 0 {
+							b = b[:len(b)-1]
+						}
+					case 5: // one byte too long
+						b = append(append([]byte{}, b...), byte(tp.Next(256)))
 					case 0:
 						b = b[:tp.Next(len(b)+1)]
 					case 1:
